@@ -28,14 +28,20 @@ Theorems: `copy_complete`, `internal_links`, `ids_kept`, `ids_fresh` (+ `ids_fre
 independence: `copy_closed`, `path_stays_in_copy`, `old_links` (the two sides are separated),
 `independent_setAttr`, `independent_createProperty`, `independent_create_entity`,
 `independent_append` (a call addressed to one side changes only that side),
-`independent_history` (+ `_observed`, `sideInv_after_copy`, `idInv_after_copy`): **any history** of API
-calls made on the copy's side leaves every node of the destination file as it was;
-`independent_history_source_side` (+ `independent_history_copy_unchanged`, `sourceSideInv_after_copy`,
-`idInv_source_side`): any history of calls made on the source's side leaves the copy (and the rest of
-the file) exactly as it was — both from one frame theorem for histories on a link-closed side
-(`Lemmas/C20Local`, `C20Hist`, `C20HistDel`: `LocalUpd`, `lu_step`, `lu_run`);
-`independent_delete_old_side` / `independent_delete_new_side` (deletion, when the other side does not
-carry the deleted ids).
+`independent_history` (+ `_observed`, `sideInv_after_copy`): **any history** of API calls made on the
+copy's side — entity deletions of every kind included, both id policies — leaves every node of the
+destination file as it was;
+`independent_history_source_side` (+ `independent_history_copy_unchanged`, `sourceSideInv_after_copy`):
+any history of calls made on the source's side leaves the copy (and the rest of the file) exactly as it
+was — both from one frame theorem for histories on a link-closed side (`Lemmas/C20Local`, `C20Hist`,
+`C20HistDel`: `LocalUpd`, `lu_step`, `lu_run`);
+`independent_delete_full` (`del container[x]` through any owning container — `Container`,
+`SectionContainer`, `SourceContainer`, `FeatureContainer` — that hands `delete_all` no object of the
+copy leaves the copy exactly as it was and in its container), `independent_delete_old_side` /
+`independent_delete_new_side` (the same for `Graph.deleteObjs` of any list of objects, both directions);
+`idInv_after_copy`, `idInv_source_side`, `ids_disjoint_after_history`: with regenerated ids the ids of the
+two sides are disjoint and stay so through every history (a fact about the id policy; no theorem above
+needs it any more).
 
 Tie to the source text: `harness/extract/copyshape.py` renders `H5Group.copy` and the eight copy entry
 points as data (`Generated/CopyShape.lean`); `h5GroupCopy_source_is_model`, `entryPoints_shape_ok`,
@@ -47,14 +53,12 @@ that the interpretation of the generated shapes is the model the theorems speak 
 an id" hold for every file the API builds.
 
 Partial / modelled:
-* deletion is global by `entity_id` (`deleteAll`), so after an id-keeping copy *within one file*
-  deleting on one side removes the same-id objects of the other side (DESIGN D13, open known
-  finding `C20-delete-hits-same-id-copy`, shared with C04): `independent_delete_full` is false —
-  `independent_delete_partial` (ids regenerated) + `independent_delete_counterexample`;
-  `independent_history` admits entity deletions only with regenerated ids (`gd`); for the proposed
-  repair (deletion by object, `reports/C20-delete-by-object.*`) the full statement is proved:
-  `repaired_delete_old_side` / `repaired_delete_new_side`;
-  for copies into another file the two sides are two graphs and no function of one sees the other;
+* deletion: `H5Group.delete_all` unlinks the given *objects* (`Graph.deleteObjs`; repaired in /repo, `fix:
+  deleting an entity also deleted every same-id copy file-wide`, fixed finding
+  `C20-delete-hits-same-id-copy`, shared with C04). Before the repair it matched `entity_id`
+  (`Graph.deleteAll`, kept in `Store/Graph.lean` for this statement only, used by no operation of the
+  model): `independent_delete_counterexample_before_fix` — the statement `independent_delete_full_before_fix`
+  about that function is false (DESIGN D13);
 * link lists name their entries by the items' ids; `H5Group.copy` regenerates the `entity_id` attributes but
   copies link names verbatim: `id_named_links_full` is false — `id_named_links_kept` (ids kept) +
   `id_named_links_counterexample` (open known finding `C20-fresh-ids-stale-link-names`);
@@ -859,12 +863,13 @@ link lists; setting and clearing role links and attributes; deleting entities; r
 entities of the copy's side* (the duplicates and whatever was created later), with every entity
 argument taken from that side in the state the call is made in, leaves every node of the
 destination file as it was — attributes unchanged, link lists unchanged except that the link from
-the destination container to a deleted copy may disappear (`LocalUpd`). Deletions of entities are
-global by `entity_id`: they are covered when the ids were regenerated and the destination's ids come
-from its own supply (`IdsBelow`, true of every file built by the API without id-keeping copies from
-elsewhere); a history without such deletions (unlinking from link lists is fine) is covered for
-both id policies. The invariant carried through the history is `SideInv` (the side stays closed
-under links) and `IdInv` (ids of the two sides stay disjoint). -/
+the destination container to a deleted copy may disappear (`LocalUpd`). Deletions of entities
+(`Container.__delitem__` of every flavour: `delete_all` of the item / its section subtree / its source
+subtree, file-wide) are by object, and the objects handed over lie on the side the call is addressed to
+(`subtreeKeys_side`), so they are covered like every other call, for both id policies — no hypothesis
+about ids. The invariant carried through the history is `SideInv` (the side stays closed under links).
+`IdInv` (ids of the two sides disjoint — with regenerated ids and a destination whose ids come from its
+own supply, `IdsBelow`) is carried too (`ids_disjoint_after_history`) but nothing depends on it. -/
 
 /-- every id in the file was drawn from the file's own supply -/
 def IdsBelow (g : Graph) : Prop := ∀ k i, g.entityId k = some i → ∃ j, j < g.nextId ∧ i = idStr j
@@ -924,32 +929,34 @@ theorem idInv_after_copy (hdst : FileOk dst) (hb : IdsBelow dst)
     obtain ⟨j, hj, e⟩ := hb k i hi
     exact ⟨j, e, hj⟩
 
-/-- **independent (histories, copy's side)**: see the section comment. `gd = true` admits global
-deletions and then needs regenerated ids and `IdsBelow dst`. -/
+/-- **independent (histories, copy's side)**: see the section comment. Every kind of call, global
+deletions included; both id policies. -/
 theorem independent_history (hdst : FileOk dst)
     (hc : copyGeneric src dst owner cls obj name false keepId = .ok (g', root))
-    (gd : Bool) (hgd : gd = true → keepId = false ∧ IdsBelow dst) (ops : List Op)
-    (ha : AddressedAll (CopySide dst owner cls) gd g' ops) :
-    LocalUpd (CopySide dst owner cls) dst.nextId g' (run g' ops) := by
-  apply lu_run (A := fun j => j < dst.nextId) ops (sideInv_after_copy hdst hc) _ ha
-  intro h
-  obtain ⟨hk, hb⟩ := hgd h
-  subst hk
-  exact idInv_after_copy hdst hb hc
+    (ops : List Op) (ha : AddressedAll (CopySide dst owner cls) g' ops) :
+    LocalUpd (CopySide dst owner cls) dst.nextId g' (run g' ops) :=
+  lu_run ops (sideInv_after_copy hdst hc) ha
 
 /-- the same in terms of what can be observed at the old nodes: same attributes; the links that lead
 to old nodes all kept, nothing added, order kept -/
 theorem independent_history_observed (hdst : FileOk dst)
     (hc : copyGeneric src dst owner cls obj name false keepId = .ok (g', root))
-    (gd : Bool) (hgd : gd = true → keepId = false ∧ IdsBelow dst) (ops : List Op)
-    (ha : AddressedAll (CopySide dst owner cls) gd g' ops) (k : Nat) (hk : IsOld dst owner cls k) :
+    (ops : List Op) (ha : AddressedAll (CopySide dst owner cls) g' ops) (k : Nat) (hk : IsOld dst owner cls k) :
     (∀ a, (run g' ops).getAttr k a = g'.getAttr k a) ∧
     ((run g' ops).links k).Sublist (g'.links k) ∧
     (∀ l ∈ g'.links k, IsOld dst owner cls l.2 → l ∈ (run g' ops).links k) := by
-  have h := independent_history hdst hc gd hgd ops ha
+  have h := independent_history hdst hc ops ha
   have hlt : ¬ CopySide dst owner cls k := Nat.not_le_of_lt (old_lt hdst hk)
   exact ⟨h.attrs k hlt, h.sub k hlt,
     fun l hl ho => h.keep k hlt l hl (Nat.not_le_of_lt (old_lt hdst ho))⟩
+
+/-- with regenerated ids (and a destination whose ids come from its own supply) the ids of the two sides are
+still disjoint after any history on the copy's side -/
+theorem ids_disjoint_after_history (hdst : FileOk dst) (hb : IdsBelow dst)
+    (hc : copyGeneric src dst owner cls obj name false false = .ok (g', root))
+    (ops : List Op) (ha : AddressedAll (CopySide dst owner cls) g' ops) :
+    IdInv (CopySide dst owner cls) dst.nextId (fun j => j < dst.nextId) (run g' ops) :=
+  idInv_run ops (sideInv_after_copy hdst hc) (idInv_after_copy hdst hb hc) ha
 
 end
 
@@ -959,9 +966,9 @@ The converse direction: the *source sub-graph* (what is reachable from the sourc
 the copy), together with whatever is created later, is a side too — when the destination container
 and its owner lie outside it (the copy is not placed inside its own source). Any history of calls
 made on it, with entity arguments from it, leaves the copy — and every other node of the file —
-exactly as it was. Entity deletions (global by id) again need disjoint ids: regenerated ids and a
-destination whose ids are pairwise distinct and drawn from its own supply. For a copy into another
-file the source's file is a different graph: no call on it is a function of the copy's file. -/
+exactly as it was — entity deletions included (by object: the source's objects are not the copy's, whatever
+ids they carry), for both id policies. For a copy into another file the source's file is a different
+graph: no call on it is a function of the copy's file. -/
 
 section
 variable {dst : Graph} {owner obj : Nat} {cls name : String} {keepId : Bool} {g' : Graph} {root : Nat}
@@ -1060,29 +1067,24 @@ theorem idInv_source_side (hdst : FileOk dst) (ho : owner ∈ keys dst) (hobj : 
     · exact ⟨j, e, k, hk, e ▸ hi⟩
     · exact ⟨n, e, k, hk, e ▸ hi⟩
 
-/-- **independent (histories, source's side)**: any history of calls on the source sub-graph leaves the
-copy and every other node of the file as it was -/
+/-- **independent (histories, source's side)**: any history of calls on the source sub-graph — deleting
+the source itself, or anything below it, included; both id policies — leaves the copy and every other
+node of the file as it was -/
 theorem independent_history_source_side (hdst : FileOk dst) (ho : owner ∈ keys dst) (hobj : obj ∈ keys dst)
     (hO : ¬ ReachF dst obj owner) (hC : ¬ ReachF dst obj (destC dst owner cls))
     (hc : copyGeneric dst dst owner cls obj name false keepId = .ok (g', root))
-    (gd : Bool) (hgd : gd = true → keepId = false ∧ IdsBelow dst ∧ IdsDistinct dst) (ops : List Op)
-    (ha : AddressedAll (SourceSide dst obj g') gd g' ops) :
-    LocalUpd (SourceSide dst obj g') g'.nextId g' (run g' ops) := by
-  apply lu_run (A := fun j => ∃ x, ¬ SourceSide dst obj g' x ∧ g'.entityId x = some (idStr j)) ops
-    (sourceSideInv_after_copy hdst ho hobj hO hC hc) _ ha
-  intro h
-  obtain ⟨hk, hb, hdis⟩ := hgd h
-  subst hk
-  exact idInv_source_side hdst ho hobj hb hdis hc
+    (ops : List Op) (ha : AddressedAll (SourceSide dst obj g') g' ops) :
+    LocalUpd (SourceSide dst obj g') g'.nextId g' (run g' ops) :=
+  lu_run ops (sourceSideInv_after_copy hdst ho hobj hO hC hc) ha
 
 /-- in particular every node of the copy is exactly as it was: same attributes, same links -/
 theorem independent_history_copy_unchanged (hdst : FileOk dst) (ho : owner ∈ keys dst) (hobj : obj ∈ keys dst)
     (hO : ¬ ReachF dst obj owner) (hC : ¬ ReachF dst obj (destC dst owner cls))
     (hc : copyGeneric dst dst owner cls obj name false keepId = .ok (g', root))
-    (gd : Bool) (hgd : gd = true → keepId = false ∧ IdsBelow dst ∧ IdsDistinct dst) (ops : List Op)
-    (ha : AddressedAll (SourceSide dst obj g') gd g' ops) (k' : Nat) (hk' : IsNew dst dst owner cls obj k') :
+    (ops : List Op) (ha : AddressedAll (SourceSide dst obj g') g' ops) (k' : Nat)
+    (hk' : IsNew dst dst owner cls obj k') :
     SameNode g' (run g' ops) k' := by
-  have h := independent_history_source_side hdst ho hobj hO hC hc gd hgd ops ha
+  have h := independent_history_source_side hdst ho hobj hO hC hc ops ha
   have hout : ∀ k, IsNew dst dst owner cls obj k → ¬ SourceSide dst obj g' k := by
     intro k hk hs
     have hge := new_ge hk
@@ -1111,71 +1113,96 @@ theorem contAppend20_refines {g g' : Graph} {c : Cont} {key : Key} (h : contAppe
 
 /-! ### deletion
 
-`Container.__delitem__` removes, file-wide, every link to an object that carries one of the deleted
-ids (`deleteAll`). If no node of the *other* side carries one of those ids, the other side is
-untouched; that is the case when the ids were regenerated (`independent_delete_partial`) and
-trivially when the two sides live in different files (two graphs; a function of one does not see the
-other). With kept ids in one file it is false (`independent_delete_counterexample`, DESIGN D13). -/
+`Container.__delitem__` hands `H5Group.delete_all` the *objects* to unlink — the item
+(`Container`, `FeatureContainer`), the item's section subtree (`SectionContainer`), the item's source
+subtree and the item (`SourceContainer`) — and `delete_all` removes, file-wide, every link that leads
+to one of them (`Graph.deleteObjs`, `contDel`, `contDelKeys`). A copy consists of other objects than its
+source whatever ids they carry, so deleting on one side never reaches the other: for both id policies,
+in both directions, same-file and cross-file. (Before the repair `fix: deleting an entity also deleted
+every same-id copy file-wide` the match was by `entity_id` and the statement was false for id-keeping
+copies within one file: `independent_delete_counterexample_before_fix`, DESIGN D13.) -/
 
-/-- deleting ids that no node of the copy carries leaves every node of the copy as it was -/
+/-- deleting objects none of which is a node of the copy — objects of the destination file as it was, in
+particular the source and anything below it — leaves every node of the copy, and the copy's entry in
+its container, as they were -/
 theorem independent_delete_old_side (hdst : FileOk dst)
-    (hc : copyGeneric src dst owner cls obj name false keepId = .ok (g', root)) (ids : List String)
-    (hno : ∀ k' i, IsNew src dst owner cls obj k' → g'.entityId k' = some i → i ∉ ids)
-    (k' : Nat) (hk' : IsNew src dst owner cls obj k') : SameNode g' (g'.deleteAll ids) k' := by
-  refine ⟨fun a => getAttr_deleteAll g' ids k' a, ?_⟩
-  rw [links_deleteAll, List.filter_eq_self]
-  intro l hl
-  have hn := copy_closed hdst hc k' hk' l hl
-  unfold keepLink
-  cases hi : g'.entityId l.2 with
-  | none => rfl
-  | some i => simpa using hno l.2 i hn hi
+    (hc : copyGeneric src dst owner cls obj name false keepId = .ok (g', root)) (ks : List Nat)
+    (hks : ∀ k ∈ ks, ¬ IsNew src dst owner cls obj k) :
+    (∀ k', IsNew src dst owner cls obj k' → SameNode g' (g'.deleteObjs ks) k') ∧
+    (effName src obj name, root) ∈ (g'.deleteObjs ks).links (destC dst owner cls) := by
+  constructor
+  · intro k' hk'
+    apply same_deleteObjs
+    intro l hl hmem
+    exact hks _ hmem (copy_closed hdst hc k' hk' l hl)
+  · rw [mem_links_deleteObjs]
+    refine ⟨child?_some_mem (name_used hdst hc).1, ?_⟩
+    have hroot : IsNew src dst owner cls obj root := ⟨obj, .refl, (copy_complete hdst hc).1⟩
+    exact fun hmem => hks _ hmem hroot
 
-/-- deleting ids that no old node carries keeps every link between old nodes (in order: the link
-lists are filtered), and all attributes; at most the link to the copy's root disappears -/
+/-- deleting objects none of which is an old node — nodes of the copy, or nodes created later — leaves
+every old node as it was, except that the destination container loses its link to the copy's root
+when that is among the deleted objects -/
 theorem independent_delete_new_side (hdst : FileOk dst) (ho : owner ∈ keys dst)
-    (hc : copyGeneric src dst owner cls obj name false keepId = .ok (g', root)) (ids : List String)
-    (hno : ∀ k i, IsOld dst owner cls k → g'.entityId k = some i → i ∉ ids)
-    (k : Nat) (hk : IsOld dst owner cls k) :
-    (∀ a, (g'.deleteAll ids).getAttr k a = g'.getAttr k a) ∧
-    ((g'.deleteAll ids).links k).Sublist (g'.links k) ∧
-    (∀ l ∈ g'.links k, l ≠ (effName src obj name, root) → l ∈ (g'.deleteAll ids).links k) := by
-  refine ⟨fun a => getAttr_deleteAll g' ids k a, links_deleteAll_sublist g' ids k, ?_⟩
-  intro l hl hne
-  rw [links_deleteAll, List.mem_filter]
-  refine ⟨hl, ?_⟩
+    (hc : copyGeneric src dst owner cls obj name false keepId = .ok (g', root)) (ks : List Nat)
+    (hks : ∀ k ∈ ks, ¬ IsOld dst owner cls k) (k : Nat) (hk : IsOld dst owner cls k)
+    (hkc : k ≠ destC dst owner cls ∨ root ∉ ks) : SameNode g' (g'.deleteObjs ks) k := by
+  apply same_deleteObjs
+  intro l hl hmem
   rcases old_links hdst ho hc k hk l hl with h | h
-  · unfold keepLink
-    cases hi : g'.entityId l.2 with
-    | none => rfl
-    | some i => simpa using hno l.2 i h hi
-  · exact absurd h.2 hne
+  · exact hks _ hmem h
+  · rcases hkc with h' | h'
+    · exact h' h.1
+    · rw [h.2] at hmem; exact h' hmem
 
-/-- the full statement: deleting the source entity (by its id) leaves the copy in its container -/
-def independent_delete_full : Prop :=
-  ∀ (src dst : Graph) (owner obj : Nat) (cls name : String) (keepId : Bool) (g' : Graph) (root : Nat) (i : String),
-    FileOk dst → copyGeneric src dst owner cls obj name false keepId = .ok (g', root) →
-    src.entityId obj = some i →
-    (effName src obj name, root) ∈ (g'.deleteAll [i]).links (destC dst owner cls)
+/-- **independent (deletion)** — the full statement, about the deletion the API performs: `del container[key]`
+through any owning container (of any entity anywhere in the file; the key an entity, a name, an id or a
+position) whose item — the entity handed in, or the entry of the container the key denotes — is such that
+`delete_all` is handed no object of the copy (`contDelKeys`: the item; its section subtree; its source
+subtree. E.g. the source of the copy or anything below it: `source_delete_keys_old`), when accepted, leaves
+every node of the copy exactly as it was and the copy in its container. Both id policies. -/
+theorem independent_delete_full (hdst : FileOk dst)
+    (hc : copyGeneric src dst owner cls obj name false keepId = .ok (g', root))
+    {c : Cont} {key : Key} {g'' : Graph}
+    (hfl : c.info.flavour ≠ .link ∧ c.info.flavour ≠ .sourceLink)
+    (hop : contDel g' c key = .ok g'')
+    (hks : ∀ k, (key = .ent k ∨ ∃ l ∈ cLinks g' c.node, l.2 = k) →
+      ∀ q ∈ contDelKeys g' c.info.flavour k, ¬ IsNew src dst owner cls obj q) :
+    (∀ k', IsNew src dst owner cls obj k' → SameNode g' g'' k') ∧
+    (effName src obj name, root) ∈ g''.links (destC dst owner cls) := by
+  obtain ⟨k, hitem, _, e⟩ := contDel_eq hfl hop
+  rw [e]
+  exact independent_delete_old_side hdst hc _ (hks k hitem)
 
-/-- it holds when the ids are regenerated and the deleted id comes from the old supply -/
-theorem independent_delete_partial (src dst : Graph) (owner obj : Nat) (cls name : String) (g' : Graph)
-    (root : Nat) (i : String) (hdst : FileOk dst)
-    (hc : copyGeneric src dst owner cls obj name false false = .ok (g', root))
-    (hi : src.entityId obj = some i) (hsupply : ∃ j, j < dst.nextId ∧ i = idStr j) :
-    (effName src obj name, root) ∈ (g'.deleteAll [i]).links (destC dst owner cls) := by
-  have hnu := name_used hdst hc
-  have hmem : (effName src obj name, root) ∈ g'.links (destC dst owner cls) := child?_some_mem hnu.1
-  rw [links_deleteAll, List.mem_filter]
-  refine ⟨hmem, ?_⟩
-  obtain ⟨n, hn1, _, hn3⟩ := (ids_fresh hdst hc obj .refl).2 i hi
-  rw [← (copy_complete hdst hc).1] at hn3
-  unfold keepLink
-  simp only [hn3]
-  obtain ⟨j, hj1, hj2⟩ := hsupply
-  have : idStr n ≠ i := by
-    rw [hj2]; intro e; have := idStr_inj e; omega
-  simpa using this
+/-- the objects `delete_all` is handed when an entity of the source sub-graph of a same-file copy is deleted
+all lie in the source sub-graph (so `independent_delete_full` applies to it) -/
+theorem source_delete_keys_old {dst : Graph} {owner obj : Nat} {cls name : String} {keepId : Bool} {g' : Graph}
+    {root : Nat} (hdst : FileOk dst) (ho : owner ∈ keys dst) (hobj : obj ∈ keys dst)
+    (hO : ¬ ReachF dst obj owner) (hC : ¬ ReachF dst obj (destC dst owner cls))
+    (hc : copyGeneric dst dst owner cls obj name false keepId = .ok (g', root))
+    (fl : CFlavour) {k : Nat} (hk : ReachF dst obj k) :
+    ∀ q ∈ contDelKeys g' fl k, ¬ IsNew dst dst owner cls obj q := by
+  have hI := sourceSideInv_after_copy hdst ho hobj hO hC hc
+  have hS : SourceSide dst obj g' k := .inl hk
+  have hout : ∀ q, SourceSide dst obj g' q → ¬ IsNew dst dst owner cls obj q := by
+    intro q hs hn
+    have hge := new_ge hn
+    rcases hs with hs | hs
+    · have := hdst.lt q (reach_keys hdst hobj hs)
+      have := nextKey_le_ensureGroup dst owner cls
+      unfold destG at hge; omega
+    · rw [nextKey_result hc] at hs; omega
+  intro q hq
+  apply hout
+  cases fl <;> simp only [contDelKeys] at hq
+  · simp only [List.mem_singleton] at hq; rw [hq]; exact hS
+  · exact subtreeKeys_side hI "sections" hS q hq
+  · rcases List.mem_append.mp hq with h | h
+    · exact subtreeKeys_side hI "sources" hS q h
+    · simp only [List.mem_singleton] at h; rw [h]; exact hS
+  · cases hq
+  · cases hq
+  · simp only [List.mem_singleton] at hq; rw [hq]; exact hS
 
 /-- a block `b` (node 2) with one array `a` (node 4, `id:0`) in `/data/b/data_arrays` (node 3) -/
 def oneArrayFile : Graph :=
@@ -1202,8 +1229,29 @@ theorem oneArrayFile_copy_ok :
       decide
     rw [h] at this; cases this
 
-/-- D13: the id-keeping copy `a2` of `a` in the same block disappears with `a` -/
-theorem independent_delete_counterexample : ¬ independent_delete_full := by
+/-- `oneArrayFile` after `b.create_data_array(name="a2", copy_from=a, keep_copy_id=True)`: the copy is node 5 -/
+def oneArrayCopied : Graph :=
+  ((copyGeneric oneArrayFile oneArrayFile 2 "data_arrays" 4 "a2" false true).toOption.map (·.1)).getD {}
+
+/-- non-vacuity of `independent_delete_full` for the case that used to fail: after the id-keeping copy
+`del b.data_arrays["a"]` (the model's `contDel` through the block's container) removes `a` and keeps
+`a2`, which still carries `a`'s id -/
+example : ((openCont oneArrayCopied [.name "data", .name "b"] "data_arrays").bind fun c =>
+      (contDel oneArrayCopied c (.str "a")).toOption.map fun g => (g.links 3, g.entityId 5)) =
+    some ([("a2", 5)], some "id:0") := by decide
+
+/-- the statement of `independent_delete_full` as it read for the deletion BEFORE the repair (`Graph.deleteAll`:
+every link to every object carrying the id): deleting the source entity (by its id) leaves the copy in its
+container -/
+def independent_delete_full_before_fix : Prop :=
+  ∀ (src dst : Graph) (owner obj : Nat) (cls name : String) (keepId : Bool) (g' : Graph) (root : Nat) (i : String),
+    FileOk dst → copyGeneric src dst owner cls obj name false keepId = .ok (g', root) →
+    src.entityId obj = some i →
+    (effName src obj name, root) ∈ (g'.deleteAll [i]).links (destC dst owner cls)
+
+/-- D13, about the code BEFORE the repair only (`Graph.deleteAll` is used by no operation of the model): the
+id-keeping copy `a2` of `a` in the same block disappeared with `a` -/
+theorem independent_delete_counterexample_before_fix : ¬ independent_delete_full_before_fix := by
   intro h
   obtain ⟨r, hr⟩ := oneArrayFile_copy_ok
   have e : r = (copyGeneric oneArrayFile oneArrayFile 2 "data_arrays" 4 "a2" false true).toOption.get! := by
@@ -1213,50 +1261,13 @@ theorem independent_delete_counterexample : ¬ independent_delete_full := by
   revert this
   decide
 
-/-! #### with deletion by object (the proposed repair, `reports/C20-delete-by-object.*`)
-
-`deleteObjs` removes the links that lead to the deleted *objects* instead of to any object with their
-ids. For it the full statement holds, for both id policies, in both directions: -/
-
-/-- deleting objects of the destination file as it was (in particular the source and anything below
-it) leaves every node of the copy, and the copy's entry in its container, as they were -/
-theorem repaired_delete_old_side (hdst : FileOk dst)
-    (hc : copyGeneric src dst owner cls obj name false keepId = .ok (g', root)) (ks : List Nat)
-    (hks : ∀ k ∈ ks, IsOld dst owner cls k) :
-    (∀ k', IsNew src dst owner cls obj k' → SameNode g' (deleteObjs g' ks) k') ∧
-    (effName src obj name, root) ∈ (deleteObjs g' ks).links (destC dst owner cls) := by
-  constructor
-  · intro k' hk'
-    apply same_deleteObjs
-    intro l hl hmem
-    exact old_ne_new hdst (hks _ hmem) (copy_closed hdst hc k' hk' l hl) rfl
-  · rw [links_deleteObjs, List.mem_filter]
-    refine ⟨child?_some_mem (name_used hdst hc).1, ?_⟩
-    have hroot : IsNew src dst owner cls obj root := ⟨obj, .refl, (copy_complete hdst hc).1⟩
-    have : root ∉ ks := fun hmem => old_ne_new hdst (hks _ hmem) hroot rfl
-    simpa using this
-
-/-- deleting objects of the copy leaves every old node as it was, except that the destination
-container loses its link to the copy's root when that is among the deleted objects -/
-theorem repaired_delete_new_side (hdst : FileOk dst) (ho : owner ∈ keys dst)
-    (hc : copyGeneric src dst owner cls obj name false keepId = .ok (g', root)) (ks : List Nat)
-    (hks : ∀ k ∈ ks, IsNew src dst owner cls obj k) (k : Nat) (hk : IsOld dst owner cls k)
-    (hkc : k ≠ destC dst owner cls ∨ root ∉ ks) : SameNode g' (deleteObjs g' ks) k := by
-  apply same_deleteObjs
-  intro l hl hmem
-  rcases old_links hdst ho hc k hk l hl with h | h
-  · exact old_ne_new hdst h (hks _ hmem) rfl
-  · rcases hkc with h' | h'
-    · exact h' h.1
-    · rw [h.2] at hmem; exact h' hmem
-
-/-- non-vacuity: the same copy with regenerated ids succeeds and survives the deletion -/
+/-- non-vacuity: the same copy with regenerated ids succeeds too -/
 example : (copyGeneric oneArrayFile oneArrayFile 2 "data_arrays" 4 "a2" false false).toOption.isSome = true := by
   decide
 
 /-! ### the hypotheses hold for the files the API builds
 
-`FileOk dst` (all theorems), `IdsBelow dst` / `IdsDistinct dst` (`independent_history*` with deletions) and "the source
+`FileOk dst` (all theorems), `IdsBelow dst` / `IdsDistinct dst` (`idInv_*`, `ids_disjoint_after_history`) and "the source
 carries an id" (`*_source*` theorems) are facts of every graph reachable from the empty file through
 the API (`ReachableFresh`: any history of `Store.Op`s under the `uuid4` freshness proviso; the
 well-formedness invariant `WF` of `Lemmas/StoreWF*.lean`). -/
@@ -1279,21 +1290,35 @@ theorem reachable_entity_has_id {g : Graph} (h : ReachableFresh g) {k c : Nat} {
 def copiedFile : Graph :=
   ((copyGeneric linkedFile linkedFile 0 "data" 2 "b2" false false).toOption.map (·.1)).getD {}
 
-/-- a history on the copy: relabel the copied array, then delete it (deletion: global by id) -/
+/-- the same copy with the ids kept: every duplicate carries the id of its original -/
+def copiedFileKeep : Graph :=
+  ((copyGeneric linkedFile linkedFile 0 "data" 2 "b2" false true).toOption.map (·.1)).getD {}
+
+/-- a history on the copy: relabel the copied array, then delete it (`delete_all` of the object, file-wide) -/
 def copyHistory : List Op :=
   [.setAttr [.name "data", .name "b2", .name "data_arrays", .name "a"] "label" (some "x"),
    .del [.name "data", .name "b2"] "data_arrays" (.pos 0)]
 
-/-- every call of it is addressed to the side `≥ 8` in the state it is made in -/
-example : AddressedAll (fun k => 8 ≤ k) true copiedFile copyHistory :=
-  ⟨⟨_, rfl, by decide⟩, .inl rfl, ⟨⟨_, rfl, by decide⟩, trivial⟩, .inl rfl, trivial⟩
+/-- every call of it is addressed to the side `≥ 8` in the state it is made in — for both id policies -/
+example : AddressedAll (fun k => 8 ≤ k) copiedFile copyHistory :=
+  ⟨⟨_, rfl, by decide⟩, ⟨⟨_, rfl, by decide⟩, trivial⟩, trivial⟩
+
+example : AddressedAll (fun k => 8 ≤ k) copiedFileKeep copyHistory :=
+  ⟨⟨_, rfl, by decide⟩, ⟨⟨_, rfl, by decide⟩, trivial⟩, trivial⟩
 
 /-- it changes the copy (the copied block loses its array, the copied tag its reference to it) and
-nothing of the original -/
+nothing of the original — with regenerated ids … -/
 example : ((run copiedFile copyHistory).links 9, (run copiedFile copyHistory).links 13,
     (run copiedFile copyHistory).links 3, (run copiedFile copyHistory).links 7,
     (run copiedFile copyHistory).getAttr 4 "label") =
     ([], [], [("a", 4)], [("id:0", 4)], none) := by decide
+
+/-- … and with kept ids (the case that failed before the repair: the original array has the same id) -/
+example : ((run copiedFileKeep copyHistory).links 9, (run copiedFileKeep copyHistory).links 13,
+    (run copiedFileKeep copyHistory).links 3, (run copiedFileKeep copyHistory).links 7,
+    (run copiedFileKeep copyHistory).getAttr 4 "label") =
+    ([], [], [("a", 4)], [("id:0", 4)], none) ∧
+    (copiedFileKeep.entityId 10, copiedFileKeep.entityId 4) = (some "id:0", some "id:0") := by decide
 
 /-- a history on the source: relabel the original array, then delete it -/
 def sourceHistory : List Op :=
@@ -1303,16 +1328,27 @@ def sourceHistory : List Op :=
 theorem linkedFile_reach_a : ReachF linkedFile 2 4 :=
   .step (p := 3) (k := 4) "a" (.step (p := 2) (k := 3) "data_arrays" .refl (by decide)) (by decide)
 
-/-- every call of it is addressed to the source's side (non-vacuity of `independent_history_source_side`) -/
-example : AddressedAll (SourceSide linkedFile 2 copiedFile) true copiedFile sourceHistory :=
-  ⟨⟨⟨4, 3, "a", 4⟩, rfl, .inl linkedFile_reach_a⟩, .inl rfl,
-   ⟨⟨⟨2, 1, "b", 2⟩, rfl, .inl .refl⟩, trivial⟩, .inl rfl, trivial⟩
+/-- every call of it is addressed to the source's side (non-vacuity of `independent_history_source_side`) —
+for both id policies -/
+example : AddressedAll (SourceSide linkedFile 2 copiedFile) copiedFile sourceHistory :=
+  ⟨⟨⟨4, 3, "a", 4⟩, rfl, .inl linkedFile_reach_a⟩,
+   ⟨⟨⟨2, 1, "b", 2⟩, rfl, .inl .refl⟩, trivial⟩, trivial⟩
+
+example : AddressedAll (SourceSide linkedFile 2 copiedFileKeep) copiedFileKeep sourceHistory :=
+  ⟨⟨⟨4, 3, "a", 4⟩, rfl, .inl linkedFile_reach_a⟩,
+   ⟨⟨⟨2, 1, "b", 2⟩, rfl, .inl .refl⟩, trivial⟩, trivial⟩
 
 /-- it empties the original's array list and tag references; the copy keeps its array (10), the copied
-tag its reference to it, and the copied array is not relabelled -/
+tag its reference to it, and the copied array is not relabelled — with regenerated ids … -/
 example : ((run copiedFile sourceHistory).links 3, (run copiedFile sourceHistory).links 7,
     (run copiedFile sourceHistory).links 9, (run copiedFile sourceHistory).links 13,
     (run copiedFile sourceHistory).getAttr 10 "label") =
+    ([], [], [("a", 10)], [("id:0", 10)], none) := by decide
+
+/-- … and with kept ids -/
+example : ((run copiedFileKeep sourceHistory).links 3, (run copiedFileKeep sourceHistory).links 7,
+    (run copiedFileKeep sourceHistory).links 9, (run copiedFileKeep sourceHistory).links 13,
+    (run copiedFileKeep sourceHistory).getAttr 10 "label") =
     ([], [], [("a", 10)], [("id:0", 10)], none) := by decide
 
 /-! ### non-vacuity of the source-shape theorems; what a narrower visitor would do -/
